@@ -10,7 +10,7 @@
    Part 2 (per class family): closed forms of `normalize` on well-formed objects, the losses (F5: Rule.enabled),
    `normalize v = Ok v` for representable objects, `repr a (normalize v) = repr a v`, FLL view, encapsulation. *)
 From Coq Require Import ZArith Bool List String Ascii Lia.
-From VF Require Import Num Core GenSignatures PyRepr.
+From VF Require Import Num GenTerm Core GenSignatures PyRepr.
 Import ListNotations.
 Local Open Scope string_scope.
 Local Open Scope list_scope.
@@ -372,17 +372,9 @@ Section EvalRepr.
     inversion H; subst e. cbn [eval normalize].
     rewrite (sequence_kv_rel (@sort_kv_rel _ _ rel_payload _ _ (map_payload_rel Hl)) Hs). reflexivity.
   Qed.
-  Lemma P_obj : forall c fs, Forall (fun kv => P' (snd kv)) fs -> P (VObj c fs).
+  Lemma obj_rel : forall c te tv, rel_tbl te tv -> rel_payload (repr_obj E a c te) (normalize_obj E c tv).
   Proof.
-    intros c fs Hfs e H. cbn [repr] in H. cbn [normalize].
-    set (te := map (fun kv => (fst kv, ((snd kv, repr E a (snd kv)),
-                 match snd kv with VObj _ fs0 => map (fun kv2 => (fst kv2, (snd kv2, repr E a (snd kv2)))) fs0 | _ => [] end))) fs) in *.
-    set (tv := map (fun kv => (fst kv, ((snd kv, normalize E (snd kv)),
-                 match snd kv with VObj _ fs0 => map (fun kv2 => (fst kv2, (snd kv2, normalize E (snd kv2)))) fs0 | _ => [] end))) fs).
-    assert (Ht : rel_tbl te tv).
-    { subst te tv. clear H. induction Hfs as [|kv fs [Hp Hsub] _ IH]; cbn; constructor; [|exact IH].
-      split; [reflexivity|]. split; [split; [reflexivity|exact Hp]|]. cbn.
-      destruct (snd kv); try constructor. apply map_entry_rel. exact Hsub. }
+    intros c te tv Ht e H. unfold repr_obj in H. unfold normalize_obj.
     destruct (find_class c) as [cs|] eqn:Hc.
     - destruct (cs_repr cs) as [src steps pos| | |] eqn:Hr.
       + destruct (as_constructor E cs src steps pos te) as [[pe ke]|] eqn:Ha; cbn in H; [|discriminate].
@@ -395,6 +387,13 @@ Section EvalRepr.
       + inversion H; subst e; clear H. cbn [eval]. rewrite (resolve_class a c Hc). reflexivity.
       + inversion H; subst e. reflexivity.
     - inversion H; subst e. reflexivity.
+  Qed.
+  Lemma P_obj : forall c fs, Forall (fun kv => P' (snd kv)) fs -> P (VObj c fs).
+  Proof.
+    intros c fs Hfs. unfold P. cbn [repr normalize]. apply obj_rel.
+    induction Hfs as [|kv fs [Hp Hsub] _ IH]; cbn; constructor; [|exact IH].
+    split; [reflexivity|]. split; [split; [reflexivity|exact Hp]|]. cbn.
+    destruct (snd kv); try constructor. apply map_entry_rel. exact Hsub.
   Qed.
 
   Theorem eval_repr_strong : forall v, P' v.
@@ -419,3 +418,525 @@ Section EvalRepr.
   Theorem eval_repr : forall v e, repr E a v = Ok e -> eval E a e = normalize E v.
   Proof. intros v e H. exact (proj1 (eval_repr_strong v) e H). Qed.
 End EvalRepr.
+
+(* ------------------------------------------------------------------ the encapsulated export *)
+Section Encapsulated.
+  Context {T : Type} {N : Num T}.
+  Variable E : penv T.
+  Lemma import_alias_statement : forall a, import_alias (@import_statement T a) = Some a.
+  Proof. destruct a; reflexivity. Qed.
+  (* the class-encapsulated export of an engine evaluates to the same constructor tree as its repr, provided the class name
+     is an identifier; the function-encapsulated export of any other component always does *)
+  Theorem encapsulated_same_expr : forall a v m e,
+    encapsulate E a v = Ok m -> repr E a v = Ok e ->
+    (forall fs n, v = VObj "Engine" fs -> assoc "name" fs = Some (VStr n) ->
+       ident_ok (pascal_case E n) = true /\ (a = AStar -> expr_uses (pascal_case E n) e = false)) ->
+    run_module E m = eval E a e.
+  Proof.
+    intros a v m e Hm He Hid. unfold encapsulate in Hm. rewrite He in Hm. cbn [bind] in Hm.
+    destruct v; try discriminate.
+    destruct (String.eqb cls "Engine") eqn:Hc.
+    - apply String.eqb_eq in Hc. subst cls.
+      destruct (assoc "name" fields) as [[]|] eqn:Hn; try discriminate.
+      inversion Hm; subst m. unfold run_module. rewrite import_alias_statement.
+      destruct (Hid fields s eq_refl Hn) as [H1 H2]. rewrite H1.
+      destruct a; [reflexivity| |reflexivity]. rewrite (H2 eq_refl). reflexivity.
+    - destruct (find_class cls) as [cs|] eqn:Hf; [|discriminate].
+      inversion Hm; subst m. unfold run_module. rewrite import_alias_statement.
+      rewrite (resolve_class a cls Hf). reflexivity.
+  Qed.
+  (* ... and an engine whose name does not give an identifier is exported as text that is not Python *)
+  Lemma encapsulated_bad_name : forall a fs n e,
+    repr E a (VObj "Engine" fs) = Ok e -> assoc "name" fs = Some (VStr n) -> ident_ok (pascal_case E n) = false ->
+    exists m, encapsulate E a (VObj "Engine" fs) = Ok m /\ run_module E m = Err ESyntax.
+  Proof.
+    intros a fs n e He Hn Hid. unfold encapsulate. rewrite He. cbn. rewrite Hn.
+    eexists; split; [reflexivity|]. unfold run_module. rewrite import_alias_statement, Hid. reflexivity.
+  Qed.
+End Encapsulated.
+
+(* ------------------------------------------------------------------ Part 2: closed forms of normalize, by computation *)
+Ltac inv_forall :=
+  repeat match goal with
+         | H : Forall _ (_ :: _) |- _ => inversion H; clear H; subst
+         | H : Forall _ [] |- _ => clear H
+         end.
+Ltac norm_step := cbv -[is_close norm_float isnan lit nan pinf ninf].
+Ltac use_nan := repeat match goal with H : isnan ?x = _ |- context [isnan ?x] => rewrite H end.
+Ltac rw_norm := repeat match goal with H : norm_float _ ?x = ?x |- context [norm_float _ ?x] => rewrite H end.
+Ltac go :=
+  norm_step; rw_norm; use_nan;
+  first [ reflexivity
+        | match goal with |- context [is_close ?E ?h ?o] => destruct (is_close E h o) eqn:?; go end ].
+Section ObjEq.
+  Context {T : Type} {N : Num T}.
+  Variable E : penv T.
+  Lemma normalize_obj_eq : forall c fs,
+    normalize E (VObj c fs) =
+    normalize_obj E c (map (fun kv => (fst kv, ((snd kv, normalize E (snd kv)),
+                         match snd kv with
+                         | VObj _ fs0 => map (fun kv2 => (fst kv2, (snd kv2, normalize E (snd kv2)))) fs0
+                         | _ => [] end))) fs).
+  Proof. reflexivity. Qed.
+
+  Lemma sequence_map_ok : forall A B (f : A -> result B) l l', Forall2 (fun x y => f x = Ok y) l l' -> sequence (map f l) = Ok l'.
+  Proof. induction 1 as [|x y l l' H _ IH]; cbn; [reflexivity|]. rewrite H, IH. reflexivity. Qed.
+  Lemma sequence_map_id : forall A (f : A -> result A) l, Forall (fun x => f x = Ok x) l -> sequence (map f l) = Ok l.
+  Proof. induction 1 as [|x l H _ IH]; cbn; [reflexivity|]. rewrite H, IH. reflexivity. Qed.
+
+End ObjEq.
+Ltac open_obj := rewrite normalize_obj_eq; cbn [map fst snd].
+
+Section Closed.
+  Context {T : Type} {N : Num T}.
+  Variable E : penv T.
+  Notation pyval := (pyval T).
+
+  Definition fl_ok (x : T) : Prop := norm_float E x = x.
+  Definition norm_height (h : T) : T := if is_close E h (lit 1 0) then lit 1 0 else h.
+  Definition shape_wf (s : shape T) : Prop :=
+    Forall fl_ok (shape_args s) /\
+    match s with
+    | Sh_Triangle _ _ r _ => isnan r = false
+    | Sh_Trapezoid _ _ tr br _ => isnan tr && isnan br = false
+    | _ => True
+    end.
+
+  (* ---- the 19 parametric shapes and Constant *)
+  Lemma normalize_shape : forall n s, shape_wf s ->
+    normalize E (shape_val n s) = Ok (shape_val n (shape_set_height s (norm_height (shape_height s)))).
+  Proof.
+    intros n s [Hf Hs]. unfold fl_ok in Hf.
+    destruct s; cbn [shape_args] in Hf; inv_forall; unfold norm_height; cbn [shape_height shape_set_height].
+    18: { destruct (isnan p_top_right) eqn:Hn1; destruct (isnan p_bottom_right) eqn:Hn2; try discriminate; go. }
+    all: go.
+  Qed.
+
+  (* ---- Discrete *)
+  Definition row_val (r : T * T) : pyval := VArr [VFloat (fst r); VFloat (snd r)].
+  Definition row_ok (r : T * T) : Prop := fl_ok (fst r) /\ fl_ok (snd r).
+  Lemma normalize_rows : forall rows, Forall row_ok rows -> normalize E (VArr (map row_val rows)) = Ok (VArr (map row_val rows)).
+  Proof.
+    intros rows H. cbn [normalize]. rewrite map_map.
+    rewrite (@sequence_map_ok _ _ (fun x => normalize E (row_val x)) rows (map row_val rows)).
+    - cbn [bind np_array]. destruct rows as [|r rows]; [reflexivity|]. cbn [map row_val].
+      replace (forallb _ _) with true; [reflexivity|]. symmetry. cbn [forallb arr_len List.length Nat.eqb andb].
+      clear H. induction rows as [|r' rows IH]; [reflexivity|]. cbn. exact IH.
+    - induction H as [|r rows [H1 H2] _ IH]; cbn [map]; constructor; [|exact IH].
+      unfold row_val. cbn. unfold fl_ok in *. rewrite H1, H2. reflexivity.
+  Qed.
+  Lemma normalize_discrete : forall n rows h, Forall row_ok rows -> fl_ok h ->
+    normalize E (term_val (PDiscrete n rows h)) = Ok (term_val (PDiscrete n rows (norm_height h))).
+  Proof.
+    intros n rows h Hr Hh. unfold fl_ok in Hh. unfold term_val. fold row_val.
+    open_obj. rewrite (normalize_rows Hr). unfold norm_height. go.
+  Qed.
+
+End Closed.
+
+Section Closed2.
+  Context {T : Type} {N : Num T}.
+  Variable E : penv T.
+  Notation pyval := (pyval T).
+  Notation fl_ok := (fl_ok E).
+  Notation norm_height := (norm_height E).
+  Notation shape_wf := (shape_wf E).
+  Notation row_ok := (row_ok E).
+  (* ---- Linear, Function (on their own: the engine reference and the parsed tree are not exported) *)
+  Lemma normalize_floats : forall l, Forall fl_ok l -> normalize E (VList (map VFloat l)) = Ok (VList (map VFloat l)).
+  Proof.
+    intros l H. cbn [normalize]. rewrite map_map.
+    rewrite (@sequence_map_ok _ _ (fun x => normalize E (VFloat x)) l (map VFloat l)); [reflexivity|].
+    induction H as [|x l Hx _ IH]; cbn [map]; constructor; [|exact IH]. cbn. unfold PyReprProofs.fl_ok in Hx. rewrite Hx. reflexivity.
+  Qed.
+  Lemma normalize_linear : forall n cs e, Forall fl_ok cs ->
+    normalize E (term_val (PLinear n cs e)) = Ok (term_val (PLinear n cs false)).
+  Proof.
+    intros n cs e H. unfold term_val. open_obj. rewrite (normalize_floats H).
+    destruct cs; destruct e; go.
+  Qed.
+  Lemma insert_kv_map : forall A B (g : A -> B) k x (l : list (string * A)),
+    insert_kv k (g x) (map (fun kv => (fst kv, g (snd kv))) l) = map (fun kv => (fst kv, g (snd kv))) (insert_kv k x l).
+  Proof.
+    induction l as [|[k' y] l IH]; cbn; [reflexivity|]. destruct (String.leb k k'); cbn; [reflexivity|]. rewrite IH. reflexivity.
+  Qed.
+  Lemma sort_kv_map : forall A B (g : A -> B) (l : list (string * A)),
+    sort_kv (map (fun kv => (fst kv, g (snd kv))) l) = map (fun kv => (fst kv, g (snd kv))) (sort_kv l).
+  Proof. induction l as [|[k x] l IH]; cbn; [reflexivity|]. rewrite IH. apply insert_kv_map. Qed.
+  Definition var_val (kv : string * T) : string * pyval := (fst kv, VFloat (snd kv)).
+  Lemma normalize_vars : forall vars, Forall (fun kv => fl_ok (snd kv)) vars -> sort_kv vars = vars ->
+    normalize E (VDict (map var_val vars)) = Ok (VDict (map var_val vars)).
+  Proof.
+    intros vars H Hs. cbn [normalize]. rewrite map_map. cbn [fst snd var_val].
+    rewrite (sort_kv_map (fun x => normalize E (VFloat x)) vars). rewrite Hs.
+    match goal with |- context [sequence_kv ?l] => assert (Hq : sequence_kv l = Ok (map var_val vars)) end.
+    { clear Hs. induction H as [|[k x] l Hx _ IH]; [reflexivity|].
+      cbn [map sequence_kv fst snd normalize var_val] in *. unfold PyReprProofs.fl_ok in Hx. rewrite Hx. cbn [bind]. rewrite IH. reflexivity. }
+    rewrite Hq. reflexivity.
+  Qed.
+  Lemma normalize_function : forall n f vars loaded e, Forall (fun kv => fl_ok (snd kv)) vars -> sort_kv vars = vars ->
+    normalize E (term_val (PFunction n f vars loaded e)) = Ok (term_val (PFunction n f vars false false)).
+  Proof.
+    intros n f vars loaded e H Hs. unfold term_val. fold var_val. open_obj. rewrite (normalize_vars H Hs).
+    destruct vars; destruct loaded; destruct e; go.
+  Qed.
+
+  (* ---- terms, summarised *)
+  Definition term_wf (t : pterm T) : Prop :=
+    match t with
+    | PShape _ s => shape_wf s
+    | PDiscrete _ rows h => Forall row_ok rows /\ fl_ok h
+    | PLinear _ cs _ => Forall fl_ok cs
+    | PFunction _ _ vars _ _ => Forall (fun kv => fl_ok (snd kv)) vars /\ sort_kv vars = vars
+    end.
+  (* what the Python representation of a term on its own keeps *)
+  Definition norm_term (t : pterm T) : pterm T :=
+    match t with
+    | PShape n s => PShape n (shape_set_height s (norm_height (shape_height s)))
+    | PDiscrete n rows h => PDiscrete n rows (norm_height h)
+    | PLinear n cs _ => PLinear n cs false
+    | PFunction n f vars _ _ => PFunction n f vars false false
+    end.
+  Theorem normalize_term : forall t, term_wf t -> normalize E (term_val t) = Ok (term_val (norm_term t)).
+  Proof.
+    destruct t; cbn [term_wf norm_term]; intros H.
+    - apply normalize_shape, H.
+    - destruct H. apply normalize_discrete; assumption.
+    - apply normalize_linear, H.
+    - destruct H. apply normalize_function; assumption.
+  Qed.
+
+  (* ---- operators and the other classes without constructor *)
+  Definition plain_class (cls : string) : bool :=
+    match find_class cls with
+    | Some cs => negb (cs_has_init cs) && match cs_init cs with [] => true | _ => false end
+                 && match cs_repr cs with RConstructor RVars [] _ => true | _ => false end
+    | None => false
+    end.
+  Lemma normalize_plain : forall cls, plain_class cls = true -> normalize E (VObj cls []) = Ok (VObj cls []).
+  Proof.
+    intros cls H. unfold plain_class in H. rewrite normalize_obj_eq. cbn [map]. unfold normalize_obj.
+    destruct (find_class cls) as [cs|] eqn:Hc; [|discriminate].
+    destruct (cs_has_init cs) eqn:Hi; [discriminate|]. destruct (cs_init cs) eqn:Hin; [|discriminate].
+    destruct (cs_repr cs) as [[] [] pos| | |]; try discriminate.
+    unfold as_constructor. rewrite Hi. cbn [map bind apply_steps kept fst snd]. unfold instantiate. cbn [instantiate_n]. rewrite Hc, Hi, Hin. reflexivity.
+  Qed.
+  Definition opt_plain (o : option string) : Prop := match o with Some cls => plain_class cls = true | None => True end.
+  Lemma normalize_opt_norm : forall o, opt_plain o -> normalize E (opt_val norm_val o) = Ok (opt_val norm_val o).
+  Proof. destruct o; cbn; intros H; [apply normalize_plain, H|reflexivity]. Qed.
+
+  (* ---- defuzzifiers and activation methods: nothing is lost *)
+  Definition defuzzifier_wf (d : pdefuzzifier) : Prop :=
+    match d with
+    | PIntegral cls r => In cls ["Bisector"; "Centroid"; "LargestOfMaximum"; "MeanOfMaximum"; "SmallestOfMaximum"] /\ r <> 0%Z
+    | PWeighted cls ty => In cls ["WeightedAverage"; "WeightedSum"] /\ In ty ["Automatic"; "TakagiSugeno"; "Tsukamoto"]
+    end.
+  Ltac in_cases H := cbn [In] in H; repeat (destruct H as [<-|H]; [|]); [..|contradiction].
+  Lemma normalize_defuzzifier : forall d, defuzzifier_wf d -> normalize E (defuzzifier_val d) = Ok (defuzzifier_val d).
+  Proof.
+    destruct d as [cls r|cls ty]; cbn [defuzzifier_wf defuzzifier_val]; intros [Hc Hr].
+    - assert (Hz : Z.eqb r 0 = false) by (apply Z.eqb_neq; exact Hr).
+      in_cases Hc; cbv -[Z.eqb]; destruct (Z.eqb r 1000) eqn:Hd;
+        try (apply Z.eqb_eq in Hd; subst r); cbv -[Z.eqb]; rewrite ?Hz; reflexivity.
+    - in_cases Hc; in_cases Hr; reflexivity.
+  Qed.
+  Definition activation_wf (x : pactivation T) : Prop :=
+    match x with
+    | PActPlain cls => In cls ["General"; "Proportional"]
+    | PActN cls _ => In cls ["Highest"; "Lowest"]
+    | PActNT cls _ t => In cls ["First"; "Last"] /\ fl_ok t
+    | PActThreshold c t => In c ["<"; "<="; "=="; "!="; ">="; ">"] /\ fl_ok t
+    end.
+  Lemma normalize_activation : forall x, activation_wf x -> normalize E (activation_val x) = Ok (activation_val x).
+  Proof.
+    destruct x as [cls|cls n|cls n t|c t]; cbn [activation_wf activation_val]; intros H.
+    - in_cases H; reflexivity.
+    - in_cases H; reflexivity.
+    - destruct H as [H Ht]. unfold PyReprProofs.fl_ok in Ht. in_cases H; go.
+    - destruct H as [H Ht]. unfold PyReprProofs.fl_ok in Ht. in_cases H; go.
+  Qed.
+
+  (* ---- rules: exported as text *)
+  Definition rule_words (r : prule T) : list string :=
+    [rule_if; join_sp (ru_antecedent r); rule_then; join_sp (ru_consequent r)]
+    ++ (if is_close E (ru_weight r) (lit 1 0) then [] else [rule_with; fmt_w E (ru_weight r)]).
+  (* the text survives: it can be pasted between quotes, and Rule.parse reads the words and the weight back.  True of
+     texts made of blank-free, quote-free words that avoid the keywords, with a weight Op.str/float() round-trip
+     (see rule_text_roundtrip_partial); checked by computation on concrete rules *)
+  Definition rule_text_ok (r : prule T) : Prop :=
+    raw_safe (join_sp (rule_words r)) = true /\
+    rule_parse E (join_sp (rule_words r)) = Ok (join_sp (ru_antecedent r), join_sp (ru_consequent r), norm_height (ru_weight r)).
+  (* F5: `enabled` is not exported; neither is the run-time state, nor a weight within the tolerance of 1 *)
+  Definition norm_rule (r : prule T) : prule T :=
+    {| ru_enabled := true; ru_weight := norm_height (ru_weight r); ru_antecedent := ru_antecedent r; ru_consequent := ru_consequent r;
+       ru_loaded := false; ru_degree := lit 0 0; ru_triggered := false |}.
+  Ltac rule_step := cbv -[is_close norm_float isnan lit nan pinf ninf rule_parse raw_safe join_sp fmt_w].
+  Ltac rule_step_in H := cbv -[is_close norm_float isnan lit nan pinf ninf rule_parse raw_safe join_sp fmt_w] in H.
+  Lemma normalize_rule : forall r, rule_text_ok r -> normalize E (rule_val r) = Ok (rule_val (norm_rule r)).
+  Proof.
+    intros [en w ante cq loaded deg trig] [Hs Hp]. unfold rule_words, norm_height in *. cbn [ru_weight ru_antecedent ru_consequent] in *.
+    unfold rule_val, norm_rule. cbn [ru_enabled ru_weight ru_antecedent ru_consequent ru_loaded ru_degree ru_triggered].
+    open_obj. unfold normalize_obj. rule_step. rule_step_in Hs. rule_step_in Hp.
+    destruct (is_close E w (lit 1 0)); rule_step; rule_step_in Hs; rule_step_in Hp; rewrite Hs, Hp; rule_step; reflexivity.
+  Qed.
+  Corollary rule_enabled_lost : forall r, rule_text_ok r -> ru_enabled r = false ->
+    exists r', normalize E (rule_val r) = Ok (rule_val r') /\ ru_enabled r' = true.
+  Proof. intros r H _. exists (norm_rule r). split; [apply normalize_rule, H|reflexivity]. Qed.
+
+  (* ---- lists of components *)
+  Lemma normalize_list : forall A (val : A -> pyval) (nf : A -> A) (l : list A),
+    Forall (fun x => normalize E (val x) = Ok (val (nf x))) l ->
+    normalize E (VList (map val l)) = Ok (VList (map val (map nf l))).
+  Proof.
+    intros A val nf l H. cbn [normalize]. rewrite map_map.
+    rewrite (@sequence_map_ok _ _ (fun x => normalize E (val x)) l (map val (map nf l))); [reflexivity|].
+    induction H as [|x l Hx _ IH]; cbn [map]; constructor; assumption.
+  Qed.
+  Lemma normalize_terms : forall ts, Forall term_wf ts ->
+    normalize E (VList (map term_val ts)) = Ok (VList (map term_val (map norm_term ts))).
+  Proof. intros ts H. apply normalize_list. eapply Forall_impl; [|exact H]. intros t Ht. apply normalize_term, Ht. Qed.
+
+  (* ---- variables: the current value (and, for outputs, the previous value and the fuzzy output) are run-time state *)
+  Definition input_wf (v : pinput T) : Prop := fl_ok (vi_min v) /\ fl_ok (vi_max v) /\ Forall term_wf (vi_terms v).
+  Definition norm_input (v : pinput T) : pinput T :=
+    {| vi_name := vi_name v; vi_description := vi_description v; vi_enabled := vi_enabled v; vi_min := vi_min v; vi_max := vi_max v;
+       vi_lock_range := vi_lock_range v; vi_terms := map norm_term (vi_terms v); vi_value := nan |}.
+  Lemma normalize_input : forall v, input_wf v -> normalize E (input_val v) = Ok (input_val (norm_input v)).
+  Proof.
+    intros [n d en mn mx lr ts val] [Hmn [Hmx Hts]]. cbn [vi_min vi_max vi_terms] in *. unfold PyReprProofs.fl_ok in Hmn, Hmx.
+    unfold input_val, norm_input. cbn [vi_name vi_description vi_enabled vi_min vi_max vi_lock_range vi_terms vi_value].
+    open_obj. rewrite (normalize_terms Hts).
+    destruct (map term_val (map norm_term ts)) eqn:Hl; destruct d; destruct en; go.
+  Qed.
+
+  Definition output_wf (v : poutput T) : Prop :=
+    fl_ok (vo_min v) /\ fl_ok (vo_max v) /\ fl_ok (vo_default v) /\ opt_plain (vo_aggregation v) /\
+    match vo_defuzzifier v with Some d => defuzzifier_wf d | None => True end /\ Forall term_wf (vo_terms v).
+  Definition norm_output (v : poutput T) : poutput T :=
+    {| vo_name := vo_name v; vo_description := vo_description v; vo_enabled := vo_enabled v; vo_min := vo_min v; vo_max := vo_max v;
+       vo_lock_range := vo_lock_range v; vo_lock_previous := vo_lock_previous v; vo_default := vo_default v;
+       vo_aggregation := vo_aggregation v; vo_defuzzifier := vo_defuzzifier v; vo_terms := map norm_term (vo_terms v);
+       vo_value := nan; vo_previous := nan; vo_fuzzy_name := vo_name v; vo_fuzzy_terms := [] |}.
+  Lemma normalize_opt_defuzzifier : forall o, match o with Some d => defuzzifier_wf d | None => True end ->
+    normalize E (opt_val defuzzifier_val o) = Ok (opt_val defuzzifier_val o).
+  Proof. destruct o; cbn [opt_val]; intros H; [apply normalize_defuzzifier, H|reflexivity]. Qed.
+  Lemma normalize_output : forall v, output_wf v -> normalize E (output_val v) = Ok (output_val (norm_output v)).
+  Proof.
+    intros [n d en mn mx lr lp dv ag df ts val prev fzn fzt] [Hmn [Hmx [Hdv [Hag [Hdf Hts]]]]].
+    cbn [vo_min vo_max vo_default vo_aggregation vo_defuzzifier vo_terms] in *. unfold PyReprProofs.fl_ok in Hmn, Hmx, Hdv.
+    unfold output_val, norm_output.
+    cbn [vo_name vo_description vo_enabled vo_min vo_max vo_lock_range vo_lock_previous vo_default vo_aggregation vo_defuzzifier vo_terms vo_value vo_previous vo_fuzzy_name vo_fuzzy_terms].
+    open_obj. rewrite (normalize_terms Hts), (normalize_opt_norm _ Hag), (normalize_opt_defuzzifier _ Hdf).
+    set (AG := opt_val norm_val ag). set (DF := opt_val defuzzifier_val df). set (FT := normalize E (VList fzt)).
+    set (FZ := normalize E (VObj "Aggregated" _)).
+    destruct (map term_val (map norm_term ts)) eqn:Hl; destruct d; destruct en; go.
+  Qed.
+
+  (* ---- rule blocks *)
+  Definition block_wf (b : pblock T) : Prop :=
+    opt_plain (bl_conjunction b) /\ opt_plain (bl_disjunction b) /\ opt_plain (bl_implication b) /\
+    match bl_activation b with Some x => activation_wf x | None => True end /\ Forall rule_text_ok (bl_rules b).
+  Definition norm_block (b : pblock T) : pblock T :=
+    {| bl_name := bl_name b; bl_description := bl_description b; bl_enabled := bl_enabled b; bl_conjunction := bl_conjunction b;
+       bl_disjunction := bl_disjunction b; bl_implication := bl_implication b; bl_activation := bl_activation b;
+       bl_rules := map norm_rule (bl_rules b) |}.
+  Lemma normalize_opt_activation : forall o, match o with Some x => activation_wf x | None => True end ->
+    normalize E (opt_val activation_val o) = Ok (opt_val activation_val o).
+  Proof. destruct o; cbn [opt_val]; intros H; [apply normalize_activation, H|reflexivity]. Qed.
+  Lemma normalize_rules : forall rs, Forall rule_text_ok rs ->
+    normalize E (VList (map rule_val rs)) = Ok (VList (map rule_val (map norm_rule rs))).
+  Proof. intros rs H. apply normalize_list. eapply Forall_impl; [|exact H]. intros r Hr. apply normalize_rule, Hr. Qed.
+  Lemma normalize_block : forall b, block_wf b -> normalize E (block_val b) = Ok (block_val (norm_block b)).
+  Proof.
+    intros [n d en cj dj im ac rs] [Hc [Hd [Hi [Ha Hr]]]]. cbn [bl_conjunction bl_disjunction bl_implication bl_activation bl_rules] in *.
+    unfold block_val, norm_block.
+    cbn [bl_name bl_description bl_enabled bl_conjunction bl_disjunction bl_implication bl_activation bl_rules].
+    open_obj. rewrite (normalize_rules Hr), (normalize_opt_norm _ Hc), (normalize_opt_norm _ Hd), (normalize_opt_norm _ Hi), (normalize_opt_activation _ Ha).
+    set (CJ := opt_val norm_val cj). set (DJ := opt_val norm_val dj). set (IM := opt_val norm_val im). set (AC := opt_val activation_val ac).
+    destruct (map rule_val (map norm_rule rs)) eqn:Hl; destruct d; destruct en; go.
+  Qed.
+
+  Lemma forallb_forall_true : forall A (f : A -> pyval * bool) (l : list A), (forall x, snd (f x) = true) -> forallb snd (map f l) = true.
+  Proof. intros A f l H. induction l as [|x l IH]; cbn; [reflexivity|]. rewrite H, IH. reflexivity. Qed.
+  (* ---- the engine: Engine(load=True) sets the references of Linear / Function terms, parses the formulas, loads the rules *)
+  Definition load_term (t : pterm T) : pterm T :=
+    match t with
+    | PLinear n cs _ => PLinear n cs true
+    | PFunction n f vars _ _ => PFunction n f vars true true
+    | _ => t
+    end.
+  Definition term_loadable (t : pterm T) : Prop :=
+    match t with PFunction _ f _ false _ => formula_err E f = None | _ => True end.
+  Lemma name_of_term : forall t, name_of (term_val t) = Some (pterm_name t).
+  Proof. destruct t as [n s|n rows h|n cs e|n f vars l e]; [destruct s|..]; reflexivity. Qed.
+  Lemma update_reference_term : forall t, term_loadable t -> update_reference E (term_val t) = Ok (term_val (load_term t)).
+  Proof.
+    destruct t as [n s|n rows h|n cs e|n f vars l e]; cbn [term_loadable load_term]; intros H.
+    - destruct s; reflexivity.
+    - reflexivity.
+    - reflexivity.
+    - destruct l; [reflexivity|]. unfold term_val, update_reference. cbn [String.eqb Ascii.eqb Bool.eqb set_assoc assoc truthy]. 
+      unfold function_load. cbn [String.eqb Ascii.eqb Bool.eqb set_assoc assoc truthy]. rewrite H. reflexivity.
+  Qed.
+  Lemma update_reference_terms : forall ts, Forall term_loadable ts ->
+    sequence (map (update_reference E) (map term_val ts)) = Ok (map term_val (map load_term ts)).
+  Proof.
+    intros ts H. rewrite map_map. apply sequence_map_ok.
+    induction H as [|t ts Ht _ IH]; cbn [map]; constructor; [apply update_reference_term, Ht|exact IH].
+  Qed.
+  Lemma names_of_terms : forall ts,
+    sequence (map (fun t => match name_of t with Some s => Ok s | None => Err EInternal end) (map term_val ts)) = Ok (map (@pterm_name T) ts).
+  Proof.
+    intros ts. rewrite map_map. apply sequence_map_ok. induction ts as [|t ts IH]; cbn [map]; constructor; [|exact IH].
+    rewrite name_of_term. reflexivity.
+  Qed.
+  Definition load_input (v : pinput T) : pinput T :=
+    {| vi_name := vi_name v; vi_description := vi_description v; vi_enabled := vi_enabled v; vi_min := vi_min v; vi_max := vi_max v;
+       vi_lock_range := vi_lock_range v; vi_terms := map load_term (vi_terms v); vi_value := vi_value v |}.
+  Definition load_output (v : poutput T) : poutput T :=
+    {| vo_name := vo_name v; vo_description := vo_description v; vo_enabled := vo_enabled v; vo_min := vo_min v; vo_max := vo_max v;
+       vo_lock_range := vo_lock_range v; vo_lock_previous := vo_lock_previous v; vo_default := vo_default v;
+       vo_aggregation := vo_aggregation v; vo_defuzzifier := vo_defuzzifier v; vo_terms := map load_term (vo_terms v);
+       vo_value := vo_value v; vo_previous := vo_previous v; vo_fuzzy_name := vo_fuzzy_name v; vo_fuzzy_terms := vo_fuzzy_terms v |}.
+  Lemma load_input_val : forall v, Forall term_loadable (vi_terms v) ->
+    on_terms (update_reference E) (input_val v) = Ok (input_val (load_input v)).
+  Proof.
+    intros [n d en mn mx lr ts val] H. cbn [vi_terms] in H. unfold input_val, load_input, on_terms.
+    cbn [vi_name vi_description vi_enabled vi_min vi_max vi_lock_range vi_terms vi_value assoc String.eqb Ascii.eqb Bool.eqb].
+    rewrite (update_reference_terms H). reflexivity.
+  Qed.
+  Lemma load_output_val : forall v, Forall term_loadable (vo_terms v) ->
+    on_terms (update_reference E) (output_val v) = Ok (output_val (load_output v)).
+  Proof.
+    intros [n d en mn mx lr lp dv ag df ts val prev fzn fzt] H. cbn [vo_terms] in H. unfold output_val, load_output, on_terms.
+    cbn [vo_name vo_description vo_enabled vo_min vo_max vo_lock_range vo_lock_previous vo_default vo_aggregation vo_defuzzifier vo_terms
+         vo_value vo_previous vo_fuzzy_name vo_fuzzy_terms assoc String.eqb Ascii.eqb Bool.eqb].
+    rewrite (update_reference_terms H). reflexivity.
+  Qed.
+  Definition input_ctx (v : pinput T) : string * list string := (vi_name v, map (@pterm_name T) (vi_terms v)).
+  Definition output_ctx (v : poutput T) : string * list string := (vo_name v, map (@pterm_name T) (vo_terms v)).
+  Lemma var_ctx_input : forall v, var_ctx (input_val v) = Ok (input_ctx v).
+  Proof.
+    intros [n d en mn mx lr ts val]. unfold input_val, var_ctx, input_ctx.
+    cbn [vi_name vi_terms assoc String.eqb Ascii.eqb Bool.eqb]. rewrite names_of_terms. reflexivity.
+  Qed.
+  Lemma var_ctx_output : forall v, var_ctx (output_val v) = Ok (output_ctx v).
+  Proof.
+    intros [n d en mn mx lr lp dv ag df ts val prev fzn fzt]. unfold output_val, var_ctx, output_ctx.
+    cbn [vo_name vo_terms assoc String.eqb Ascii.eqb Bool.eqb]. rewrite names_of_terms. reflexivity.
+  Qed.
+  Definition load_rule_t (r : prule T) : prule T :=
+    {| ru_enabled := ru_enabled r; ru_weight := ru_weight r; ru_antecedent := ru_antecedent r; ru_consequent := ru_consequent r;
+       ru_loaded := true; ru_degree := lit 0 0; ru_triggered := false |}.
+  Definition load_block (b : pblock T) : pblock T :=
+    {| bl_name := bl_name b; bl_description := bl_description b; bl_enabled := bl_enabled b; bl_conjunction := bl_conjunction b;
+       bl_disjunction := bl_disjunction b; bl_implication := bl_implication b; bl_activation := bl_activation b;
+       bl_rules := map load_rule_t (bl_rules b) |}.
+  Definition rule_loads (ins outs : list (string * list string)) (r : prule T) : Prop :=
+    rule_ok E ins outs (join_sp (ru_antecedent r)) (join_sp (ru_consequent r)) = true.
+  Lemma load_rule_val : forall ins outs r, rule_loads ins outs r -> load_rule E ins outs (rule_val r) = Ok (rule_val (load_rule_t r), true).
+  Proof.
+    intros ins outs [en w ante cq l deg trig] H. unfold rule_loads in H. cbn [ru_antecedent ru_consequent] in H.
+    unfold rule_val, load_rule, load_rule_t.
+    cbn [ru_enabled ru_weight ru_antecedent ru_consequent ru_loaded ru_degree ru_triggered assoc set_assoc String.eqb Ascii.eqb Bool.eqb].
+    rewrite H. reflexivity.
+  Qed.
+  Lemma load_rules_val : forall ins outs b, Forall (rule_loads ins outs) (bl_rules b) ->
+    load_rules E ins outs (block_val b) = Ok (block_val (load_block b)).
+  Proof.
+    intros ins outs [n d en cj dj im ac rs] H. cbn [bl_rules] in H. unfold block_val, load_rules, load_block.
+    cbn [bl_name bl_description bl_enabled bl_conjunction bl_disjunction bl_implication bl_activation bl_rules assoc set_assoc String.eqb Ascii.eqb Bool.eqb].
+    rewrite map_map.
+    rewrite (@sequence_map_ok _ _ (fun x => load_rule E ins outs (rule_val x)) rs (map (fun r => (rule_val (load_rule_t r), true)) rs)).
+    - cbn [bind]. rewrite forallb_forall_true by reflexivity. rewrite !map_map. cbn [fst]. reflexivity.
+    - induction H as [|r rs Hr _ IH]; cbn [map]; constructor; [apply load_rule_val, Hr|exact IH].
+  Qed.
+
+  Lemma Forall2_map_ok : forall A B (f : A -> result B) (g : A -> B) l,
+    Forall (fun x => f x = Ok (g x)) l -> Forall2 (fun x y => f x = Ok y) l (map g l).
+  Proof. induction 1; cbn [map]; constructor; assumption. Qed.
+  Lemma engine_load_typed : forall n d ivs ovs rbs,
+    Forall (fun v => Forall term_loadable (vi_terms v)) ivs -> Forall (fun v => Forall term_loadable (vo_terms v)) ovs ->
+    Forall (fun b => Forall (rule_loads (map input_ctx (map load_input ivs)) (map output_ctx (map load_output ovs))) (bl_rules b)) rbs ->
+    engine_load E [("name", VStr n); ("description", VStr d); ("input_variables", VList (map input_val ivs));
+                   ("output_variables", VList (map output_val ovs)); ("rule_blocks", VList (map block_val rbs))]
+    = Ok [("name", VStr n); ("description", VStr d); ("input_variables", VList (map input_val (map load_input ivs)));
+          ("output_variables", VList (map output_val (map load_output ovs))); ("rule_blocks", VList (map block_val (map load_block rbs)))].
+  Proof.
+    intros n d ivs ovs rbs Hi Ho Hr. unfold engine_load. cbn [assoc String.eqb Ascii.eqb Bool.eqb].
+    assert (A1 : sequence (map (on_terms (update_reference E)) (map input_val ivs)) = Ok (map input_val (map load_input ivs))).
+    { rewrite !map_map. apply sequence_map_ok. apply Forall2_map_ok with (g := fun v => input_val (load_input v)). eapply Forall_impl; [|exact Hi]. intros v Hv. apply load_input_val, Hv. }
+    assert (A2 : sequence (map (on_terms (update_reference E)) (map output_val ovs)) = Ok (map output_val (map load_output ovs))).
+    { rewrite !map_map. apply sequence_map_ok. apply Forall2_map_ok with (g := fun v => output_val (load_output v)). eapply Forall_impl; [|exact Ho]. intros v Hv. apply load_output_val, Hv. }
+    rewrite A1, A2. cbn [bind].
+    assert (A3 : forall l, sequence (map (@var_ctx T) (map input_val l)) = Ok (map input_ctx l)).
+    { intro l. rewrite map_map. apply sequence_map_ok. apply Forall2_map_ok. apply Forall_forall. intros v _. apply var_ctx_input. }
+    assert (A4 : forall l, sequence (map (@var_ctx T) (map output_val l)) = Ok (map output_ctx l)).
+    { intro l. rewrite map_map. apply sequence_map_ok. apply Forall2_map_ok. apply Forall_forall. intros v _. apply var_ctx_output. }
+    rewrite A3, A4. cbn [bind].
+    set (ins := map input_ctx (map load_input ivs)) in *. set (outs := map output_ctx (map load_output ovs)) in *.
+    assert (A5 : sequence (map (load_rules E ins outs) (map block_val rbs)) = Ok (map block_val (map load_block rbs))).
+    { rewrite !map_map. apply sequence_map_ok. apply Forall2_map_ok with (g := fun b => block_val (load_block b)). eapply Forall_impl; [|exact Hr]. intros b Hb. apply load_rules_val, Hb. }
+    rewrite A5. reflexivity.
+  Qed.
+  Lemma engine_shell : forall n d (v1 v2 v3 : pyval) IV OV RB,
+    normalize_obj E "Engine"
+      [("name", ((VStr n, Ok (VStr n)), [])); ("description", ((VStr d, Ok (VStr d)), []));
+       ("input_variables", ((v1, Ok (VList IV)), [])); ("output_variables", ((v2, Ok (VList OV)), []));
+       ("rule_blocks", ((v3, Ok (VList RB)), []))]
+    = (do fs <- engine_load E [("name", VStr n); ("description", VStr d); ("input_variables", VList IV);
+                               ("output_variables", VList OV); ("rule_blocks", VList RB)];
+       Ok (VObj "Engine" fs)).
+  Proof.
+    intros n d v1 v2 v3 IV OV RB. destruct d; destruct IV; destruct OV; destruct RB; cbv -[engine_load];
+      match goal with |- context [engine_load E ?f] => destruct (engine_load E f) end; reflexivity.
+  Qed.
+
+  (* ---- the whole engine *)
+  Definition norm_engine (e : pengine T) : pengine T :=
+    {| en_name := en_name e; en_description := en_description e;
+       en_inputs := map (fun v => load_input (norm_input v)) (en_inputs e);
+       en_outputs := map (fun v => load_output (norm_output v)) (en_outputs e);
+       en_blocks := map (fun b => load_block (norm_block b)) (en_blocks e) |}.
+  Definition formula_ok (t : pterm T) : Prop := match t with PFunction _ f _ _ _ => formula_err E f = None | _ => True end.
+  Definition engine_wf (e : pengine T) : Prop :=
+    Forall input_wf (en_inputs e) /\ Forall output_wf (en_outputs e) /\ Forall block_wf (en_blocks e) /\
+    Forall (fun v => Forall formula_ok (vi_terms v)) (en_inputs e) /\ Forall (fun v => Forall formula_ok (vo_terms v)) (en_outputs e) /\
+    Forall (fun b => Forall (rule_loads (map input_ctx (en_inputs e)) (map output_ctx (en_outputs e))) (bl_rules b)) (en_blocks e).
+  Lemma name_preserved : forall t, pterm_name (load_term (norm_term t)) = pterm_name t.
+  Proof. destruct t; reflexivity. Qed.
+  Lemma loadable_norm : forall t, formula_ok t -> term_loadable (norm_term t).
+  Proof. destruct t; cbn; auto. Qed.
+  Lemma input_ctx_preserved : forall l, map input_ctx (map load_input (map norm_input l)) = map input_ctx l.
+  Proof.
+    induction l as [|v l IH]; [reflexivity|]. cbn [map]. rewrite IH. f_equal. unfold input_ctx. cbn. f_equal.
+    rewrite !map_map. apply map_ext. apply name_preserved.
+  Qed.
+  Lemma output_ctx_preserved : forall l, map output_ctx (map load_output (map norm_output l)) = map output_ctx l.
+  Proof.
+    induction l as [|v l IH]; [reflexivity|]. cbn [map]. rewrite IH. f_equal. unfold output_ctx. cbn. f_equal.
+    rewrite !map_map. apply map_ext. apply name_preserved.
+  Qed.
+  Theorem normalize_engine : forall e, engine_wf e -> normalize E (engine_val e) = Ok (engine_val (norm_engine e)).
+  Proof.
+    intros [n d ivs ovs rbs] [Hi [Ho [Hb [Hfi [Hfo Hr]]]]]. cbn [en_inputs en_outputs en_blocks] in *.
+    unfold engine_val, norm_engine. cbn [en_name en_description en_inputs en_outputs en_blocks].
+    open_obj.
+    rewrite (@normalize_list _ input_val norm_input ivs) by (eapply Forall_impl; [|exact Hi]; intros v Hv; apply normalize_input, Hv).
+    rewrite (@normalize_list _ output_val norm_output ovs) by (eapply Forall_impl; [|exact Ho]; intros v Hv; apply normalize_output, Hv).
+    rewrite (@normalize_list _ block_val norm_block rbs) by (eapply Forall_impl; [|exact Hb]; intros v Hv; apply normalize_block, Hv).
+    cbn [normalize]. rewrite engine_shell.
+    rewrite engine_load_typed.
+    - cbn [bind]. rewrite !map_map. reflexivity.
+    - apply Forall_forall. intros v Hv. apply in_map_iff in Hv. destruct Hv as [v0 [<- Hin]]. cbn [norm_input vi_terms].
+      apply Forall_forall. intros t Ht. apply in_map_iff in Ht. destruct Ht as [t0 [<- Hin0]]. apply loadable_norm.
+      rewrite Forall_forall in Hfi. specialize (Hfi v0 Hin). rewrite Forall_forall in Hfi. apply Hfi, Hin0.
+    - apply Forall_forall. intros v Hv. apply in_map_iff in Hv. destruct Hv as [v0 [<- Hin]]. cbn [norm_output vo_terms].
+      apply Forall_forall. intros t Ht. apply in_map_iff in Ht. destruct Ht as [t0 [<- Hin0]]. apply loadable_norm.
+      rewrite Forall_forall in Hfo. specialize (Hfo v0 Hin). rewrite Forall_forall in Hfo. apply Hfo, Hin0.
+    - rewrite input_ctx_preserved, output_ctx_preserved.
+      apply Forall_forall. intros b Hbin. apply in_map_iff in Hbin. destruct Hbin as [b0 [<- Hin]]. cbn [norm_block bl_rules].
+      apply Forall_forall. intros r Hrin. apply in_map_iff in Hrin. destruct Hrin as [r0 [<- Hin0]].
+      rewrite Forall_forall in Hr. specialize (Hr b0 Hin). rewrite Forall_forall in Hr. exact (Hr r0 Hin0).
+  Qed.
+End Closed2.
